@@ -112,8 +112,27 @@ fn judge_render(case: &Case) -> Outcome {
                 DocVal::Obj(o) => o,
                 _ => unreachable!(),
             };
+            // YAML nodes may carry tags (`!t [a, b]`); a tag does not change the data
+            fn tagged(v: &serde_yaml::Value, depth: usize) -> serde_yaml::Value {
+                use serde_yaml::Value as Y;
+                let inner = match v {
+                    Y::Mapping(m) => Y::Mapping(m.iter().map(|(k, x)| (k.clone(), tagged(x, depth + 1))).collect()),
+                    Y::Sequence(s) => Y::Sequence(s.iter().map(|x| tagged(x, depth + 1)).collect()),
+                    other => other.clone(),
+                };
+                if depth == 0 {
+                    inner
+                } else {
+                    Y::Tagged(Box::new(serde_yaml::value::TaggedValue { tag: serde_yaml::value::Tag::new("t"), value: inner }))
+                }
+            }
+            let yaml_tagged = match tagged(&serde_yaml::Value::Mapping(yaml.clone()), 0) {
+                serde_yaml::Value::Mapping(m) => m,
+                _ => unreachable!(),
+            };
             let mut renderings: Vec<(&str, Result<bool, String>)> = vec![
                 ("the hand-written Object holding signed integers", engine::matches(r, &twin)),
+                ("serde_yaml::Mapping whose nested nodes carry tags", engine::matches(r, &yaml_tagged)),
                 ("serde_yaml::Mapping", engine::matches(r, &yaml)),
                 ("HashMap<String, serde_yaml::Value>", engine::matches(r, &hm_yaml)),
                 ("HashMap<String, model value>", engine::matches(r, &hm_model)),
@@ -158,7 +177,13 @@ fn judge_render(case: &Case) -> Outcome {
         // find() agreement on every path of the document
         let yaml = doc.to_yaml_mapping();
         let json = doc.to_json_value();
-        for p in paths_of(&doc) {
+        let mut all_paths = paths_of(&doc);
+        // an all-digit segment is a name, not an index, in every representation
+        for p in all_paths.clone().iter().take(12) {
+            all_paths.push(format!("{p}.0"));
+            all_paths.push(format!("{p}.1"));
+        }
+        for p in all_paths {
             let base = Object::find(&doc, &p).map(|v| sorted(&value_to_docval(&v)));
             let y = Object::find(&yaml, &p).map(|v| sorted(&value_to_docval(&v)));
             evals += 1;
